@@ -1,6 +1,6 @@
 """Case generator for the skip-list kind of the container engine (C19).
 
-ops:  i:K:P  x:K:P:S  f:K  fi la  nx:I pv:I v:I  fv lv len  c:I d:I  r:I:K  pf
+ops:  i:K:P  !Si:K:P  f:K  fi la  nx:I pv:I v:I  fv lv len  c:I d:I  r:I:K  pf
 The generator keeps its own sorted list (new elements before equal ones) only to aim at the
 boundaries: equal keys, below the minimum / above the maximum, find of absent / present /
 duplicated keys, drain to empty and refill, removal of the first / last / middle / only node,
@@ -29,7 +29,7 @@ def gen_case(rng, maxops):
         p = nextp
         nextp += 1
         if fail >= 0:
-            ops.append("x:%d:%d:%d" % (key, p, fail))
+            ops.append("!%di:%d:%d" % (fail, key, p))
             if fail <= 2:
                 return
         else:
